@@ -474,6 +474,93 @@ Definition run_class (mode ulevel : Z) (o18 inbm fr nbm : bool) (battr blevel lv
   let f := code_class (Ok (load_full_class_boards u all)) in
   [ST_OK] ++ a ++ a ++ f ++ f ++ [lenZ stored] ++ map b_bid stored.
 
+(* ------------------------------------------------------------------ board life cycle (op 11) *)
+(* The moderator cache (Shm.BMCache) is kept per board SLOT (record number of .BRD), not per board. What a caller is
+   allowed on a board therefore depends on how the cache of the slot was maintained while boards came and went:
+   ptt.NewBoard -> mNewbrd -> addBoardRecord puts the new header into a free (blank-name) slot if there is one, else
+   appends; both paths end in cache.ResetBoard (header read back from .BRD, buildBMCache = ParseBMList of the header's
+   own BM field, at most MAX_BMs uids). A board is removed by blanking its record (the administration tools do that)
+   and cache.ReloadBCache, which copies .BRD into the board cache and leaves the moderator caches as they are.
+   State: the slots from the first one behind the fixture's boards on, each (header or blank, moderator cache). Users are
+   numbers of a pool of registered users; a board name is a number. *)
+Record lboard := mk_lboard { lb_name : Z; lb_bms : list Z; lb_attr : Z; lb_level : Z }.
+Definition lslot := (option lboard * list Z)%type.
+Definition parse_bm_list (ms : list Z) : list Z := firstn (Z.to_nat ptttype.MAX_BMs) ms.     (* ParseBMList *)
+(* mNewbrd (creator with PERM_BOARD): a hidden board is created without restricted mask and without level *)
+Definition mnewbrd_header (n : Z) (ms : list Z) (attr level : Z) : lboard :=
+  if has attr BRD_HIDE then mk_lboard n ms (Z.ldiff attr BRD_POSTMASK) 0 else mk_lboard n ms attr level.
+Definition l_named (n : Z) (s : lslot) : bool :=
+  match fst s with Some b => lb_name b =? n | None => false end.
+(* addBoardRecord, the free-slot path. [reset] = true: cache.ResetBoard(bid) as the code has it (the slot's moderator
+   cache is rebuilt from the new header); [reset] = false: the header alone is published and the slot's moderator cache
+   stays - not the code, kept to state what the call is needed for (C07_life_cycle_needs_reset) *)
+Fixpoint put_free (reset : bool) (b : lboard) (sl : list lslot) : option (list lslot) :=
+  match sl with
+  | [] => None
+  | s :: r =>
+      match fst s with
+      | None => Some ((Some b, if reset then parse_bm_list (lb_bms b) else snd s) :: r)
+      | Some _ => option_map (cons s) (put_free reset b r)
+      end
+  end.
+(* NewBoard: 3 = the name exists; else free slot, else append (AddbrdTouchCache -> ResetBoard) *)
+Definition l_create (reset : bool) (sl : list lslot) (n : Z) (ms : list Z) (attr level : Z) : list lslot * Z :=
+  if existsb (l_named n) sl then (sl, 3)
+  else let b := mnewbrd_header n ms attr level in
+       match put_free reset b sl with
+       | Some sl' => (sl', 0)
+       | None => (sl ++ [(Some b, parse_bm_list (lb_bms b))], 0)
+       end.
+(* removal: the record of the board is blanked, the boards are reloaded; the moderator cache of the slot is not touched
+   (names are unique: creation refuses a name that exists) *)
+Definition l_remove (sl : list lslot) (n : Z) : list lslot * Z :=
+  if existsb (l_named n) sl then (map (fun s => if l_named n s then (None, snd s) else s) sl, 0) else (sl, 4).
+(* what the entry points answer to pool user [u] (level word, over-18 flag) on a board with header [b] whose slot has
+   moderator cache [c]; the board holds no article (it has just been created). found, then validity query, article list,
+   pinned list, cursor search, article body, post template (1 not refused / 0 refused), bbs validity query, bbs article
+   list, then listing by board number (0 absent, 1 with title, 2 without) and the summary (1 with title, 2 without) *)
+Definition l_inp (b : lboard) (c : list Z) (u ulevel : Z) (o18 : bool) : inp :=
+  abs ulevel o18 (existsb (Z.eqb u) c) false (existsb (Z.eqb u) (lb_bms b)) (lb_attr b) (lb_level b).
+Definition nr {A} (o : outcome A) : Z := zb (negb (refused o)).
+Definition l_answer (b : lboard) (c : list Z) (u ulevel : Z) (o18 : bool) : list Z :=
+  let i := l_inp b c u ulevel o18 in
+  let c0 := content_of_bits 0 in
+  let us := mk_user ulevel o18 in
+  let bd := mk_board 0 true (lb_attr b) (lb_level b) (existsb (Z.eqb u) c) false (existsb (Z.eqb u) (lb_bms b)) true in
+  [1; code_valid (epc_is_board_valid_user i c0); nr (epc_load_general_articles i c0); nr (epc_load_bottom_articles i c0);
+   nr (epc_find_article_start_idx i c0); nr (epc_read_post i 77 c0); nr (epc_read_post_template i c0);
+   code_valid (epc_is_board_valid_user i c0); nr (epc_load_general_articles i c0);
+   hd 0 (code_listing (load_boards_by_bids us [bd])); if s_title (load_board_summary us bd) then 1 else 2].
+Definition l_query (sl : list lslot) (n u ulevel : Z) (o18 : bool) : list Z :=
+  match find (l_named n) sl with
+  | Some (Some b, c) => l_answer b c u ulevel o18
+  | _ => [0; -1; -1; -1; -1; -1; -1; -1; -1; -1; -1]
+  end.
+(* steps: [1; name; attr; level; moderators...] create, [2; name] remove, [3] reload, [4; name; user; level; over18] query *)
+Inductive lstep := LCreate (n attr level : Z) (ms : list Z) | LRemove (n : Z) | LReload | LQuery (n u ulevel o18 : Z) | LBad.
+Definition l_decode (step : list Z) : lstep :=
+  match step with
+  | 1 :: n :: attr :: level :: ms => LCreate n attr level ms
+  | [2; n] => LRemove n
+  | [3] => LReload
+  | [4; n; u; ulevel; o18] => LQuery n u ulevel o18
+  | _ => LBad
+  end.
+Definition l_apply (reset : bool) (sl : list lslot) (s : lstep) : list lslot * list Z :=
+  match s with
+  | LCreate n attr level ms => let (sl', c) := l_create reset sl n ms attr level in (sl', [c])
+  | LRemove n => let (sl', c) := l_remove sl n in (sl', [c])
+  | LReload => (sl, [0])
+  | LQuery n u ulevel o18 => (sl, l_query sl n u ulevel (bz o18))
+  | LBad => (sl, [-9])
+  end.
+Definition l_step (reset : bool) (sl : list lslot) (step : list Z) : list lslot * list Z := l_apply reset sl (l_decode step).
+Fixpoint l_run (reset : bool) (sl : list lslot) (steps : list (list Z)) : list lslot * list Z :=
+  match steps with
+  | [] => (sl, [])
+  | s :: r => let (sl1, o1) := l_step reset sl s in let (sl2, o2) := l_run reset sl1 r in (sl2, o1 ++ o2)
+  end.
+
 Definition run_case (args : list (list Z)) : list Z :=
   match args with
   | [[1]; [ulevel; o18; inbm; fr; nbm]; [battr; blevel]] => run_row ulevel (bz o18) (bz inbm) (bz fr) (bz nbm) battr blevel
@@ -488,6 +575,7 @@ Definition run_case (args : list (list Z)) : list Z :=
       | Some c => run_row_in c ulevel (bz o18) (bz inbm) (bz fr) (bz nbm) battr blevel
       | None => [ST_BADCASE]
       end
+  | [11] :: steps => ST_OK :: snd (l_run true [] steps)
   | [[10; cfg]] =>
       match build_of cfg with
       | Some c => [ST_OK; zb (negb (use_real_desc c =? 0)); max_board c]
